@@ -182,7 +182,7 @@ def c133(ctx):
             in_mani = f.crate == "mani"
             if helpers or (in_mani and is_write_open):
                 n += 1
-                ctx.check(R, f, "manifest-file-op", f.skey in allowed or not is_write_open,
+                ctx.check(R, f, "manifest-file-op", f.skey in allowed or f.skey.startswith("mani::Manifest::") or not is_write_open,
                           "%s on a manifest path happens in %s" % (ck.rsplit("::", 1)[-1], f.skey),
                           "%s touches a manifest file (%s) outside Manifest::_apply/rollover" % (f.skey, sorted(helpers)), pt=pt)
     ctx.floor(R, "manifest file operations", n, 4)
